@@ -216,8 +216,9 @@ def as_dict(ctx, kind):
         ctx.prove(not hasattr(p, "_cache") and not hasattr(p._proc, "_cache"), "cache-gone-after-exit")
 
 
-@harness("C16.threads", quick=[dict(P=1, b="cpu_times"), dict(P=1, b="num_threads")], thorough=[dict(P=2, b=m) for m in ("cpu_times", "num_threads", "ppid", "memory_full_info")], timeout_ms=5000)
-def threads(ctx, P, b):
+@harness("C16.threads", quick=[dict(P=1, b="cpu_times"), dict(P=1, b="num_threads"), dict(P=2, b="cpu_times", small=True)],
+         thorough=[dict(P=2, b=m) for m in ("cpu_times", "num_threads", "ppid", "memory_full_info")] + [dict(P=3, b=m, small=True) for m in ("cpu_times", "num_threads")], timeout_ms=5000)
+def threads(ctx, P, b, small=False):
     """a thread using oneshot() interleaved (source-line granularity, at most P pre-emptions) with a thread calling a plain
     method on the same object: no spurious error, every value is the record's value"""
     from psv import sched
@@ -235,10 +236,13 @@ def threads(ctx, P, b):
 
         def A():
             with p.oneshot():
+                if small:       # the shortest block: one call (so that two pre-emptions stay affordable in the quick tier)
+                    r = getattr(p, b)()
+                    return (r if b == "cpu_times" else None, r if b == "num_threads" else None, None)
                 return (p.cpu_times(), p.num_threads(), p.uids())
 
         def B():
-            return (getattr(p, b)(), getattr(p, b)())
+            return (getattr(p, b)(),) if small else (getattr(p, b)(), getattr(p, b)())
 
         res = S.run([A, B])
     for i in (0, 1):
@@ -246,9 +250,9 @@ def threads(ctx, P, b):
         ctx.prove(kind == "ok", "threads-no-spurious-error", detail=f"thread {'AB'[i]}: {val!r} after pre-emptions at {S.trace}")
     if res[0][0] == "ok":
         ct, nt, u = res[0][1]
-        V.check_value(ctx, "cpu_times", ct, 0, "threads-values-valid")
-        V.check_value(ctx, "num_threads", nt, 0, "threads-values-valid")
-        V.check_value(ctx, "uids", u, 0, "threads-values-valid")
+        for nm_, v_ in (("cpu_times", ct), ("num_threads", nt), ("uids", u)):
+            if v_ is not None:
+                V.check_value(ctx, nm_, v_, 0, "threads-values-valid")
     if res[1][0] == "ok":
         for r in res[1][1]:
             V.check_value(ctx, b, r, 0, "threads-values-valid")
